@@ -8,6 +8,7 @@ import (
 	"errors"
 	"fmt"
 	"io"
+	"math"
 	"reflect"
 	"strconv"
 	"strings"
@@ -40,7 +41,41 @@ type TestRec struct {
 	Blob []byte
 }
 
-type exec struct{ w *record.Wrapper }
+type exec struct {
+	w *record.Wrapper
+	r *TestRec // typed record with key history (bnew / setkey / resetkey / keyq)
+}
+
+// marshalErrClass maps the errors of Marshal / MarshalRecord to the model's classes.
+func marshalErrClass(err error) string {
+	switch {
+	case err.Error() == "missing meta":
+		return "err missing-meta"
+	case strings.Contains(err.Error(), "format mismatch"):
+		return "err mismatch"
+	}
+	return "err codec"
+}
+
+// metaOrNil parses `nil` or six metadata words from the front of f.
+func metaOrNil(f []string) (m *record.Meta, rest []string, ok bool) {
+	if len(f) >= 1 && f[0] == "nil" {
+		return nil, f[1:], true
+	}
+	if len(f) < 6 {
+		return nil, nil, false
+	}
+	m, ok = mkMeta(f[:6])
+	return m, f[6:], ok
+}
+
+func showBase(r record.Record) string {
+	t := "f"
+	if r.KeyIsSet() {
+		t = "t"
+	}
+	return hxlib.Hex([]byte(r.Key())) + " " + hxlib.Hex([]byte(r.DatabaseName())) + " " + hxlib.Hex([]byte(r.DatabaseKey())) + " " + t
+}
 
 func mkMeta(f []string) (*record.Meta, bool) {
 	if len(f) != 6 {
@@ -158,6 +193,20 @@ func mkRec(seed int64) *TestRec {
 	return r
 }
 
+// mkRecX: seeds below 0 give records the JSON codec refuses (NaN / infinity are not representable).
+func mkRecX(seed int64) *TestRec {
+	if seed >= 0 {
+		return mkRec(seed)
+	}
+	r := mkRec(-seed)
+	if seed%2 == 0 {
+		r.F = math.NaN()
+	} else {
+		r.F = math.Inf(1)
+	}
+	return r
+}
+
 func (e *exec) Do(line string) string {
 	f := strings.Fields(line)
 	if len(f) == 0 {
@@ -198,9 +247,221 @@ func (e *exec) Do(line string) string {
 		}
 		b, err := e.w.MarshalRecord(e.w)
 		if err != nil {
-			return "err marshal " + err.Error()
+			return "err marshal " + strings.TrimPrefix(marshalErrClass(err), "err ")
 		}
 		return e.Do("parse " + hxlib.Hex(b))
+	case "wnewnil": // a wrapper without metadata
+		if len(f) != 3 {
+			return "bad-op"
+		}
+		fm, err := strconv.Atoi(f[1])
+		if err != nil || fm > 255 {
+			return "bad-op"
+		}
+		e.w, _ = record.NewWrapper("db:key", nil, uint8(fm), hxlib.UnHex(f[2]))
+		return "ok"
+	case "wm": // Wrapper.Marshal(r, format)
+		fm, err := strconv.Atoi(f[1])
+		if e.w == nil || err != nil || fm > 255 {
+			return "bad-op"
+		}
+		b, err := e.w.Marshal(e.w, uint8(fm))
+		switch {
+		case err != nil:
+			return marshalErrClass(err)
+		case b == nil:
+			return "nil"
+		}
+		return hxlib.Hex(b)
+	case "wmr": // Wrapper.MarshalRecord(r)
+		if e.w == nil {
+			return "bad-op"
+		}
+		b, err := e.w.MarshalRecord(e.w)
+		if err != nil {
+			return marshalErrClass(err)
+		}
+		return hxlib.Hex(b)
+	case "bnew":
+		e.r = &TestRec{}
+		return "ok"
+	case "setkey":
+		if e.r == nil {
+			return "bad-op"
+		}
+		e.r.SetKey(string(hxlib.UnHex(f[1])))
+		return "ok"
+	case "resetkey":
+		if e.r == nil {
+			return "bad-op"
+		}
+		e.r.ResetKey()
+		return "ok"
+	case "keyq":
+		if e.r == nil {
+			return "bad-op"
+		}
+		return showBase(e.r)
+	case "gmb": // GenCodeMarshal into a caller-supplied buffer (len f[2], cap f[1], pre-filled)
+		capn, err1 := strconv.Atoi(f[1])
+		ln, err2 := strconv.Atoi(f[2])
+		m, ok := mkMeta(f[3:])
+		if !ok || err1 != nil || err2 != nil || ln > capn {
+			return "bad-op"
+		}
+		buf := make([]byte, ln, capn)
+		full := buf[:capn]
+		for i := range full {
+			full[i] = 0xAA
+		}
+		b, err := m.GenCodeMarshal(buf)
+		if err != nil {
+			return "err"
+		}
+		return hxlib.Hex(b)
+	case "bm": // Base.Marshal(self, format) of a typed record
+		m, rest, ok := metaOrNil(f[1:])
+		if !ok || len(rest) != 2 {
+			return "bad-op"
+		}
+		fm, err1 := strconv.Atoi(rest[0])
+		seed, err2 := strconv.ParseInt(rest[1], 10, 64)
+		if err1 != nil || err2 != nil || fm > 255 {
+			return "bad-op"
+		}
+		r := mkRecX(seed)
+		r.SetKey("db:key")
+		if m != nil {
+			r.SetMeta(m)
+		}
+		b, err := r.Marshal(r, uint8(fm))
+		switch {
+		case err != nil:
+			return marshalErrClass(err)
+		case b == nil:
+			return "nil"
+		}
+		return hxlib.Hex(b)
+	case "mbr": // Base.MarshalRecord(self), incl. records without metadata and records the JSON codec refuses
+		m, rest, ok := metaOrNil(f[1:])
+		if !ok || len(rest) != 1 {
+			return "bad-op"
+		}
+		seed, err := strconv.ParseInt(rest[0], 10, 64)
+		if err != nil {
+			return "bad-op"
+		}
+		r := mkRecX(seed)
+		r.SetKey("db:key")
+		if m != nil {
+			r.SetMeta(m)
+		}
+		b, err := r.MarshalRecord(r)
+		if err != nil {
+			return marshalErrClass(err)
+		}
+		return hxlib.Hex(b)
+	case "uwn": // Unwrap of something that is not a wrapper
+		src := mkRec(1)
+		src.SetKey("db:key")
+		src.CreateMeta()
+		n := &TestRec{}
+		err := record.Unwrap(src, n)
+		switch {
+		case err == nil:
+			return "ok"
+		case strings.HasPrefix(err.Error(), "cannot unwrap"):
+			if n.KeyIsSet() || n.Meta() != nil {
+				return "FAIL target changed although Unwrap failed"
+			}
+			return "err not-wrapper"
+		}
+		return "err load"
+	case "uw": // Unwrap(wrapper, r): uw <db> <key> <meta 6> <fmt> <data> <target key|-> <ok|fail>
+		if len(f) != 13 {
+			return "bad-op"
+		}
+		m, ok := mkMeta(f[3:9])
+		fm, err := strconv.Atoi(f[9])
+		if !ok || err != nil || fm > 127 || m.Deleted > 0 {
+			return "bad-op"
+		}
+		w0, _ := record.NewWrapper("x:y", m, uint8(fm), hxlib.UnHex(f[10]))
+		enc, err := w0.MarshalRecord(w0)
+		if err != nil {
+			return "bad-op"
+		}
+		w, err := record.NewRawWrapper(string(hxlib.UnHex(f[1])), string(hxlib.UnHex(f[2])), enc)
+		if err != nil {
+			return "FAIL parse: " + err.Error()
+		}
+		n := &TestRec{}
+		if f[11] != "-" {
+			n.SetKey(string(hxlib.UnHex(f[11])))
+		}
+		if !w.IsWrapped() || n.IsWrapped() {
+			return "FAIL IsWrapped"
+		}
+		_ = w.GetAccessor(w) // exercised for totality only (accessors are outside this property)
+		before := showBase(n)
+		if err := record.Unwrap(w, n); err != nil {
+			if showBase(n) != before || n.Meta() != nil {
+				return "FAIL target changed although Unwrap failed"
+			}
+			return "err load"
+		}
+		_ = n.GetAccessor(n)
+		ms := "nil"
+		if n.Meta() != nil {
+			ms = showMeta(n.Meta())
+		}
+		return "ok " + showBase(n) + " " + ms
+	case "um": // implementation only: metadata made by CreateMeta/UpdateMeta survive the storage form
+		if len(f) != 9 {
+			return "bad-op"
+		}
+		m, ok := mkMeta(f[2:8])
+		seed, err := strconv.ParseInt(f[8], 10, 64)
+		if !ok || err != nil {
+			return "bad-op"
+		}
+		r := mkRec(seed)
+		r.SetKey("db:k")
+		switch f[1] {
+		case "0":
+			r.UpdateMeta() // creates
+		case "1":
+			r.CreateMeta()
+			r.UpdateMeta()
+		case "2":
+			r.SetMeta(m)
+			r.UpdateMeta()
+			r.UpdateMeta()
+		default:
+			r.CreateMeta()
+		}
+		if r.Meta() == nil {
+			return "FAIL no metadata after CreateMeta/UpdateMeta"
+		}
+		want := showMeta(r.Meta())
+		b, err := r.MarshalRecord(r)
+		if err != nil {
+			return "FAIL marshal: " + err.Error()
+		}
+		w, err := record.NewRawWrapper("db", "k", b)
+		if err != nil {
+			return "FAIL parse: " + err.Error()
+		}
+		if showMeta(w.Meta()) != want {
+			return "FAIL meta " + showMeta(w.Meta()) + " want " + want
+		}
+		dup := r.Meta().Duplicate()
+		r.Meta().Created++
+		r.Meta().MakeSecret()
+		if showMeta(dup) != want {
+			return "FAIL Duplicate is not an independent copy: " + showMeta(dup) + " want " + want
+		}
+		return "ok"
 	case "mw":
 		if len(f) != 9 {
 			return "bad-op"
@@ -404,9 +665,46 @@ func monitor(c hxlib.Case, outs []string) (vs []hxlib.Violation) {
 					}
 				}
 			}
+		case "keyq":
+			// a key with a non-empty database part set on a record without key reads back unchanged
+			if i > 0 && strings.HasPrefix(c.Lines[i-1], "setkey ") && i > 1 && strings.HasSuffix(outs[i-2], " f") {
+				k := string(hxlib.UnHex(strings.Fields(c.Lines[i-1])[1]))
+				if idx := strings.Index(k, ":"); idx > 0 {
+					if of := strings.Fields(o); len(of) != 4 || of[0] != hxlib.Hex([]byte(k)) || of[3] != "t" {
+						add(i, "C08:key-roundtrip", fmt.Sprintf("SetKey(%q) on a record without key, then Key()/KeyIsSet() = %q", k, o))
+					}
+				}
+			}
+		case "wmr":
+			// wire layout: version 1 | length-prefixed meta block (GenCode, 34 bytes) | what Marshal(AUTO) returns
+			if i > 0 && c.Lines[i-1] == "wm 0" && !strings.HasPrefix(o, "err") && !strings.HasPrefix(outs[i-1], "err") {
+				rec := hxlib.UnHex(o)
+				var ds []byte
+				if outs[i-1] != "nil" {
+					ds = hxlib.UnHex(outs[i-1])
+				}
+				if len(rec) < 37 || rec[0] != 1 || rec[1] != 35 || rec[2] != dsd.GenCode || string(rec[37:]) != string(ds) {
+					add(i, "C08:marshalrecord-layout", fmt.Sprintf("MarshalRecord = %s is not 01 | 23 | 47 <34 bytes> | Marshal(AUTO) = %s", o, outs[i-1]))
+				}
+			}
+		case "uw", "uwn", "um":
+			if strings.HasPrefix(o, "FAIL") {
+				add(i, "C08:"+f[0], o)
+			}
+			if f[0] == "uw" && f[12] == "ok" && f[11] == "-" {
+				// a typed record unwrapped from the parsed form: same key, same metadata
+				key := string(hxlib.UnHex(f[1])) + ":" + string(hxlib.UnHex(f[2]))
+				of := strings.Fields(o)
+				if len(of) != 11 || of[0] != "ok" || of[1] != hxlib.Hex([]byte(key)) || strings.Join(of[5:], " ") != strings.Join(f[3:9], " ") {
+					add(i, "C08:unwrap-key-meta", fmt.Sprintf("unwrapped record has %q, want key %q and metadata %v", o, key, f[3:9]))
+				}
+			}
 		case "gu":
 			if i > 0 {
 				pf := strings.Fields(c.Lines[i-1])
+				if pf[0] == "gmb" && len(pf) > 3 {
+					pf = append([]string{"gm"}, pf[3:]...)
+				}
 				if pf[0] == "gm" && strings.HasPrefix(f[1], outs[i-1]) {
 					want := "ok " + strings.Join(pf[1:], " ")
 					if o != want {
@@ -572,6 +870,137 @@ func generate(r *hxlib.Run, emit func(hxlib.Case)) {
 		js, _ := json.Marshal(func() *TestRec { x := mkRec(int64(seed)); return x }())
 		emit(hxlib.Case{Lines: []string{mb + "@" + hxlib.Hex(js)}, NonTrivial: true, Kind: "typed-marshal"})
 	}
+	// key accessors of Base as a state machine: SetKey (once), ResetKey, Key / DatabaseName / DatabaseKey / KeyIsSet
+	keyParts := []string{"db", "", "a:b", ":", "cörε", "x:y:z", "::", "core", "k", "config/x", " "}
+	mkKey := func() string {
+		k := keyParts[rng.Intn(len(keyParts))]
+		if rng.Intn(4) != 0 {
+			k += ":" + keyParts[rng.Intn(len(keyParts))]
+		}
+		return k
+	}
+	for i := 0; i < r.Budget(600, 20000); i++ {
+		lines := []string{"bnew", "keyq"}
+		for j := 0; j < 1+rng.Intn(5); j++ {
+			if rng.Intn(4) == 0 {
+				lines = append(lines, "resetkey", "keyq")
+			} else {
+				lines = append(lines, "setkey "+hxlib.Hex([]byte(mkKey())), "keyq")
+			}
+		}
+		emit(hxlib.Case{Lines: lines, NonTrivial: true, Kind: "key-accessors"})
+	}
+	// Marshal / MarshalRecord of wrappers through the public methods: explicit formats, records without
+	// metadata, layout relation between the two
+	for i := 0; i < r.Budget(1500, 60000); i++ {
+		fm := formats[rng.Intn(len(formats))]
+		var lines []string
+		if rng.Intn(5) == 0 {
+			lines = append(lines, fmt.Sprintf("wnewnil %d %s", fm, hxlib.Hex(payload())))
+		} else {
+			lines = append(lines, fmt.Sprintf("wnew %s %d %s", strings.Join(meta(), " "), fm, hxlib.Hex(payload())))
+		}
+		for j := 0; j < 1+rng.Intn(3); j++ {
+			lines = append(lines, "wm 0", "wmr")
+			switch rng.Intn(4) {
+			case 0:
+				lines = append(lines, fmt.Sprintf("wm %d", fm))
+			case 1:
+				lines = append(lines, fmt.Sprintf("wm %d", formats[rng.Intn(len(formats))]))
+			case 2:
+				lines = append(lines, "wrt")
+			}
+			if !strings.HasPrefix(lines[0], "wnewnil") && rng.Intn(2) == 0 {
+				lines = append(lines, "wset "+strings.Join(meta(), " "))
+			}
+		}
+		emit(hxlib.Case{Lines: lines, NonTrivial: true, Kind: "wrapper-marshal-api"})
+	}
+	// Marshal / MarshalRecord of typed records: every dsd format (incl. unsupported ones and GenCode, which the
+	// harness schema does not implement), records without metadata, values the JSON codec refuses. The codec's
+	// output is a parameter of the model (computed here with dsd.Dump).
+	typedFormats := []int{dsd.JSON, dsd.JSON, dsd.CBOR, dsd.MsgPack, dsd.YAML, dsd.GenCode, dsd.RAW, dsd.AUTO, 200, 255}
+	metaOrNilWords := func() string {
+		if rng.Intn(6) == 0 {
+			return "nil"
+		}
+		return strings.Join(meta(), " ")
+	}
+	dumpWord := func(seed int64, format int) string {
+		d, err := dsd.Dump(mkRecX(seed), uint8(format))
+		if err != nil {
+			return "fail"
+		}
+		return hxlib.Hex(d)
+	}
+	for i := 0; i < r.Budget(1500, 60000); i++ {
+		seed := int64(rng.Intn(1000))
+		if rng.Intn(6) == 0 {
+			seed = -1 - int64(rng.Intn(50))
+		}
+		fm := typedFormats[rng.Intn(len(typedFormats))]
+		r.Count(fmt.Sprintf("typed-format:%d", fm))
+		lines := []string{
+			fmt.Sprintf("bm %s %d %d@%s", metaOrNilWords(), fm, seed, dumpWord(seed, fm)),
+			fmt.Sprintf("mbr %s %d@%s", metaOrNilWords(), seed, dumpWord(seed, dsd.JSON)),
+		}
+		emit(hxlib.Case{Lines: lines, NonTrivial: true, Kind: "typed-marshal-api"})
+	}
+	// Unwrap: wrappers with arbitrary database name / key (as storage backends hand them to NewRawWrapper),
+	// every format, valid and invalid payloads, targets with and without a key of their own
+	liveMeta := func() []string {
+		m := meta()
+		if !strings.HasPrefix(m[3], "-") {
+			m[3] = "0"
+		}
+		return m
+	}
+	for i := 0; i < r.Budget(1500, 60000); i++ {
+		if rng.Intn(40) == 0 {
+			emit(hxlib.Case{Lines: []string{"uwn"}, NonTrivial: true, Kind: "unwrap"})
+			continue
+		}
+		fm := []int{dsd.JSON, dsd.JSON, dsd.JSON, dsd.CBOR, dsd.MsgPack, dsd.RAW, dsd.GenCode, dsd.AUTO, 127, dsd.YAML}[rng.Intn(10)]
+		var data []byte
+		switch rng.Intn(6) {
+		case 0:
+			data = payload()
+		case 1:
+			data = []byte("{\"S\":1}") // valid JSON, wrong type
+		default:
+			full, err := dsd.Dump(mkRec(int64(rng.Intn(100))), uint8([]int{dsd.JSON, dsd.JSON, fm}[rng.Intn(3)]))
+			if err == nil && len(full) > 0 {
+				data = full[1:]
+			}
+		}
+		load := "fail"
+		if dsd.LoadAsFormat(data, uint8(fm), &TestRec{}) == nil {
+			load = "ok"
+		}
+		r.Count("unwrap-load:" + load)
+		tkey := "-"
+		if rng.Intn(4) == 0 {
+			tkey = hxlib.Hex([]byte([]string{"other:k", ":x", "nocolon", "a:b:c"}[rng.Intn(4)]))
+		}
+		line := fmt.Sprintf("uw %s %s %s %d %s %s %s", hxlib.Hex([]byte(keyParts[rng.Intn(len(keyParts))])), hxlib.Hex([]byte(keyParts[rng.Intn(len(keyParts))])),
+			strings.Join(liveMeta(), " "), fm, hxlib.Hex(data), tkey, load)
+		emit(hxlib.Case{Lines: []string{line}, NonTrivial: true, Kind: "unwrap"})
+	}
+	// GenCodeMarshal into caller-supplied buffers (too small, exactly 34, larger; pre-filled), then unmarshal
+	for i := 0; i < r.Budget(600, 20000); i++ {
+		m := meta()
+		capn := []int{0, 1, 33, 34, 35, 64, 200}[rng.Intn(7)]
+		ln := 0
+		if capn > 0 {
+			ln = rng.Intn(capn + 1)
+		}
+		gmb := fmt.Sprintf("gmb %d %d %s", capn, ln, strings.Join(m, " "))
+		emit(hxlib.Case{Lines: []string{gmb, "gu " + ex.Do(gmb) + []string{"", "ab"}[rng.Intn(2)]}, NonTrivial: true, Kind: "gencode-buffer"})
+	}
+	// metadata made by CreateMeta / UpdateMeta survive the storage form; Duplicate is an independent copy
+	for i := 0; i < r.Budget(300, 10000); i++ {
+		emit(hxlib.Case{Lines: []string{fmt.Sprintf("um %d %s %d", rng.Intn(4), strings.Join(meta(), " "), rng.Intn(100))}, NonTrivial: true, Kind: "update-meta", NoModel: true})
+	}
 	// keys
 	for i := 0; i < 300; i++ {
 		parts := []string{"db", "", "a:b", ":", "cörε", "x:y:z", "::"}
@@ -667,7 +1096,7 @@ func (e *execWrap) Do(line string) string {
 func main() {
 	hxlib.Main(&hxlib.Harness{
 		Prop:     "C08",
-		Rule:     "(also: wrappers with history — metadata changed in place between serialisations; records whose meta section is produced by a real third-party codec or gzip, incl. empty/garbage gzip streams; payloads with a dictionary of meaningful prefixes) structured: metadata tuples from {0,±1,now,±2^31,±2^53,±2^56,2^63-1,-2^63,random int64} × flags × formats (all DSD ids, 127, 128, 200, 255) × payloads (empty, 1 B, JSON, random ≤4 KiB) × deleted or not: MarshalRecord bytes compared byte for byte with the model, NewRawWrapper results field by field, gencode marshal/unmarshal; typed records of the harness schema (round trip checked on the implementation, bytes compared with the model given the JSON payload); keys; malformed: every truncation and single-byte corruption (8 values per position) of up to 40/200 valid encodings, flag bytes 0..255, block length fields at all boundaries incl. 2^63, 2^64-1, version and meta-format bytes, random strings ≤64 B. Non-trivial: everything except keys without a colon; distinct by hash of the op lines.",
+		Rule:     "(also: key accessors of Base as a state machine; Marshal/MarshalRecord of wrappers and typed records through the public methods incl. explicit formats, missing metadata and failing codecs; Unwrap with arbitrary database name/key, every format, valid and invalid payloads, keyed targets; GenCodeMarshal into caller-supplied buffers; CreateMeta/UpdateMeta/Duplicate on the implementation) (also: wrappers with history — metadata changed in place between serialisations; records whose meta section is produced by a real third-party codec or gzip, incl. empty/garbage gzip streams; payloads with a dictionary of meaningful prefixes) structured: metadata tuples from {0,±1,now,±2^31,±2^53,±2^56,2^63-1,-2^63,random int64} × flags × formats (all DSD ids, 127, 128, 200, 255) × payloads (empty, 1 B, JSON, random ≤4 KiB) × deleted or not: MarshalRecord bytes compared byte for byte with the model, NewRawWrapper results field by field, gencode marshal/unmarshal; typed records of the harness schema (round trip checked on the implementation, bytes compared with the model given the JSON payload); keys; malformed: every truncation and single-byte corruption (8 values per position) of up to 40/200 valid encodings, flag bytes 0..255, block length fields at all boundaries incl. 2^63, 2^64-1, version and meta-format bytes, random strings ≤64 B. Non-trivial: everything except keys without a colon; distinct by hash of the op lines.",
 		Generate: generate,
 		NewExec:  func(*hxlib.Run) hxlib.Exec { return &execWrap{} },
 		Monitor:  monitor,
